@@ -1,7 +1,9 @@
 package main
 
 import (
+	"errors"
 	"fmt"
+	"io"
 	"os"
 	"path/filepath"
 	"strings"
@@ -81,7 +83,13 @@ func runC11(r *run) {
 				for q := 0; q < nrefs && k < nf-1 && !isChild; q++ {
 					j := k + 1 + g.intn(nf-k-1)
 					name := ref(paths[k], paths[j])
-					switch g.intn(8) {
+					switch g.intn(11) {
+					case 8: // the includer's current bindings shadow the caller's key x
+						sb.WriteString("{% with x=\"WX\" %}{% include \"" + name + "\" %}{% endwith %}")
+					case 9:
+						sb.WriteString("{% for x in \"pq\" %}{% include \"" + name + "\" %}{% endfor %}")
+					case 10:
+						sb.WriteString("{% with x=\"LX\" %}{% set nm = \"" + name + "\" %}{% include nm with v=x %}{% endwith %}")
 					case 0:
 						sb.WriteString("{% include \"" + name + "\" %}")
 					case 1:
@@ -125,6 +133,13 @@ func runC11(r *run) {
 			w := &world{files: []map[string]string{{"main.tpl": src}}}
 			emit(caseT{"canary", w.args("main.tpl", nil)})
 		}
+		// loaders that spell names differently (a theme directory in front of a defaults
+		// directory): every route must ask each loader for the name as that loader resolves it
+		for _, has := range []string{"0", "1", "01"} {
+			for route := 0; route < 7; route++ {
+				emit(caseT{"absdiff", []string{has, fmt.Sprint(route)}})
+			}
+		}
 		// pongo2's own loaders' path arithmetic against the model's
 		for _, base := range []string{"", "a.tpl", "d/a.tpl", "d/e/a.tpl", "/r/a.tpl", "./d/a.tpl", "d/../a.tpl"} {
 			for _, name := range []string{"x.tpl", "s/x.tpl", "../x.tpl", "../../x.tpl", "/x.tpl", "./x.tpl", "s/../x.tpl", "", ".", ".."} {
@@ -136,7 +151,98 @@ func runC11(r *run) {
 	r.finish(nil)
 }
 
+// dirLoader resolves every name below its own directory, like LocalFilesystemLoader with a
+// base directory does
+type dirLoader struct {
+	dir   string
+	files map[string]string
+}
+
+func (l *dirLoader) Abs(base, name string) string {
+	if filepath.IsAbs(name) {
+		return name
+	}
+	return filepath.Join(l.dir, name)
+}
+func (l *dirLoader) Get(path string) (io.Reader, error) {
+	c, ok := l.files[path]
+	if !ok {
+		return nil, errors.New("not found: " + path)
+	}
+	return strings.NewReader(c), nil
+}
+
+func execAbsDiff(r *run, c caseT) {
+	has := c.args[0]
+	var route int
+	fmt.Sscanf(c.args[1], "%d", &route)
+	l0 := &dirLoader{dir: "/theme", files: map[string]string{}}
+	l1 := &dirLoader{dir: "/defaults", files: map[string]string{}}
+	want := ""
+	if strings.Contains(has, "1") {
+		l1.files["/defaults/part.tpl"] = "P1{% block b %}{% endblock %}{% macro m() export %}M1{% endmacro %}"
+		want = "1"
+	}
+	if strings.Contains(has, "0") {
+		l0.files["/theme/part.tpl"] = "P0{% block b %}{% endblock %}{% macro m() export %}M0{% endmacro %}"
+		want = "0"
+	}
+	set := pongo2.NewSet("absdiff", l0, l1)
+	var out string
+	var err error
+	p := func() (p any) {
+		defer func() { p = recover() }()
+		var tpl *pongo2.Template
+		switch route {
+		case 0:
+			tpl, err = set.FromFile("part.tpl")
+		case 1:
+			tpl, err = set.FromCache("part.tpl")
+		case 2:
+			tpl, err = set.FromString("{% include \"part.tpl\" %}")
+		case 3:
+			tpl, err = set.FromString("{% set n = \"part.tpl\" %}{% include n %}")
+		case 4:
+			tpl, err = set.FromString("{% ssi \"part.tpl\" %}")
+		case 5:
+			tpl, err = set.FromString("{% extends \"part.tpl\" %}")
+		case 6:
+			tpl, err = set.FromString("{% import \"part.tpl\" m %}P{{ m() }}")
+		}
+		if err == nil {
+			out, err = tpl.Execute(nil)
+		}
+		return nil
+	}()
+	obs := "err"
+	if p != nil {
+		obs = "panic"
+	} else if err == nil {
+		obs = obsOK(out)
+	}
+	id := r.emit(c.op, c.args, "absdiff:"+obs)
+	r.nontrivial("absdiff" + c.args[0] + c.args[1])
+	detail := map[string]any{"loader0_has": strings.Contains(has, "0"), "loader1_has": strings.Contains(has, "1"), "route": route, "observed": obs}
+	if err == nil {
+		detail["output"] = out
+	} else {
+		detail["error"] = err.Error()
+	}
+	switch {
+	case p != nil:
+		r.reject(id, "panic", detail)
+	case err != nil:
+		r.reject(id, "a name one of the set's loaders has could not be loaded", detail)
+	case !strings.Contains(out, "P"+want) && !strings.Contains(out, "M"+want):
+		r.reject(id, "the name was not served by the first loader that has it", detail)
+	}
+}
+
 func execC11(r *run, c caseT) {
+	if c.op == "absdiff" {
+		execAbsDiff(r, c)
+		return
+	}
 	if c.op == "abs" {
 		base, name := unhx(c.args[0]), unhx(c.args[1])
 		got := pongo2.NewFSLoader(nil).Abs(base, name)
